@@ -25,7 +25,10 @@ for m in muts:
         src = open(path).read()
         if src.count(m["find"]) != 1:
             print(f"SKIP   {m['name']}: pattern occurs {src.count(m['find'])} times"); ok = False; continue
-        open(path, "w").write(src.replace(m["find"], m["replace"]))
+        new = src.replace(m["find"], m["replace"])
+        if m.get("pre") == "import-time":
+            new = new.replace('import (\n', 'import (\n\t"time"\n', 1)
+        open(path, "w").write(new)
         props = m["expect"]
         detected, outs = [], []
         noisy = []
